@@ -274,6 +274,9 @@ func (c c04) Run(e *Env, cs *Case) (*Outcome, error) {
 		return nil, err
 	}
 	defer w.Close()
+	// reverse ranges over maps of packages and names: give each case its own
+	// (replayable) iteration order.
+	w.RtSeed = fmt.Sprint(1 + p.Seed%1000003)
 	if err := world.CpA(filepath.Join(base.Dir, "gocache"), w.GoCache); err != nil {
 		return nil, err
 	}
